@@ -90,7 +90,8 @@ def check_npy(S, p):
 
 
 def check_cli_reject(S, r, what, sub, d):
-    wit = {"level": "C", "argv": r.argv, "input_b64": E.b64(d), "run": r.brief()}
+    from .. import replay as R
+    wit = {"level": "C", "argv": r.argv, "input_b64": E.b64(d), "run": r.brief(), "replay": R.reject(r)}
     if r.panicked or r.signal:
         S.viol("C16:panic:%s" % panic_sig(r.err), "[C %r on %s] panicked: %r" % (sub, what, r.err[:200]), wit)
     elif r.timed_out:
